@@ -114,6 +114,10 @@ func fullNode(id, tag string) *sbom.Node {
 	return n
 }
 
+// novelCounter feeds the "novel-values" operand; it only ever grows (single goroutine: documents are built by the
+// harness between executions).
+var novelCounter int
+
 // Docs returns the operand document variants by name.
 func Docs() map[string]func() *sbom.Document {
 	return map[string]func() *sbom.Document{
@@ -184,6 +188,33 @@ func Docs() map[string]func() *sbom.Document {
 			d := Docs()["full-multiroot"]()
 			d.NodeList.RootElements = append(d.NodeList.RootElements, "b")
 			gen.SpareList(d.NodeList)
+			return d
+		},
+		// values that are new to the process on every build (a counter goes into edge type numbers, licence names, purl
+		// and hash values): whatever the library remembers about values it has met - a warned-once set, an interning
+		// table, a cache - meets something it has not seen, every time, also after a warm-up
+		"novel-values": func() *sbom.Document {
+			novelCounter += 2
+			k := novelCounter
+			d := sbom.NewDocument()
+			d.Metadata.Id = fmt.Sprintf("urn:uuid:0b8e2a5e-6c1b-4f6e-9a89-%012d", k)
+			mk := func(id string) *sbom.Node {
+				return &sbom.Node{Id: id, Name: fmt.Sprintf("n-%s-%d", id, k), Version: fmt.Sprint(k),
+					Licenses:         []string{fmt.Sprintf("LicenseRef-novel-%d", k)},
+					LicenseConcluded: fmt.Sprintf("LicenseRef-novel-%d OR MIT", k),
+					Hashes:           map[int32]string{int32(sbom.HashAlgorithm_SHA256): fmt.Sprintf("%064d", k)},
+					Identifiers:      map[int32]string{int32(sbom.SoftwareIdentifierType_PURL): fmt.Sprintf("pkg:novel%d/ns/%s@%d", k, id, k)},
+					PrimaryPurpose:   []sbom.Purpose{sbom.Purpose(100 + k)},
+				}
+			}
+			d.NodeList.Nodes = []*sbom.Node{mk("r"), mk("a"), mk("b")}
+			d.NodeList.Edges = []*sbom.Edge{
+				{From: "r", Type: sbom.Edge_contains, To: []string{"a", "b"}},
+				{From: "a", Type: sbom.Edge_Type(3000 + k), To: []string{"b"}},
+				{From: "b", Type: sbom.Edge_Type(3001 + k), To: []string{"a", "r"}},
+				{From: "a", Type: sbom.Edge_other, To: []string{"r"}},
+			}
+			d.NodeList.RootElements = []string{"r"}
 			return d
 		},
 		// containment that is not a tree: a node with two containers, a node that lists itself and the root among its
@@ -464,6 +495,7 @@ func Run(c *engine.Ctx) {
 	c.Bound("sequential", fmt.Sprintf("%d operation instances over %d operand document variants x %d second-operand variants", total, len(names), len(names)))
 	vocabulary(c, docs)
 	schedules(c)
+	fineGrained(c)
 }
 
 // vocabulary: operand values drawn from the vocabulary of the library's own sources (every word-like string literal
